@@ -1,0 +1,49 @@
+//go:build verif
+
+package ast
+
+import (
+	"fmt"
+	"strings"
+)
+
+// Verification hook (build tag verif only): reports every exported CodeWriter method the
+// printers call, after nothing but the call itself - calls made by the writer's own methods
+// (WriteSemi -> WriteRune, ...) are not reported.
+
+// VerifWriterHook, when set, receives the method name and its argument.
+var VerifWriterHook func(cw *CodeWriter, op string, arg string)
+
+var verifDepth = map[*CodeWriter]int{}
+
+func (cw *CodeWriter) vtrace(op, arg string) func() {
+	if VerifWriterHook == nil {
+		return verifNoop
+	}
+	if verifDepth[cw] == 0 {
+		VerifWriterHook(cw, op, arg)
+	}
+	verifDepth[cw]++
+	return func() {
+		verifDepth[cw]--
+		if verifDepth[cw] == 0 {
+			delete(verifDepth, cw)
+		}
+	}
+}
+
+func (cw *CodeWriter) vtracePos(op string, line, col int, name string) func() {
+	if VerifWriterHook == nil {
+		return verifNoop
+	}
+	return cw.vtrace(op, fmt.Sprintf("%d:%d:%s", line, col, name))
+}
+
+func (cw *CodeWriter) vtraceList(op string, list []string) func() {
+	if VerifWriterHook == nil {
+		return verifNoop
+	}
+	return cw.vtrace(op, strings.Join(list, "\x00")+fmt.Sprintf("\x00#%d", len(list)))
+}
+
+func verifNoop() {}
